@@ -81,7 +81,7 @@ def correspondence(ctx):
     executable rational instance of the loop models (Model/HetPath.v): V, a, c, D, Dbeg at every date and the aggregates A, C"""
     from fractions import Fraction
     rng = ctx['rng']
-    n = 24 if ctx['tier'] == 'quick' else 300
+    n = 24 if ctx['tier'] == 'quick' else 120
     m = load_toy()
     blk = m.toy_block
     qf = lambda v: (lambda fr: f'(hq {C.zs(fr.numerator)} {fr.denominator}%positive)')(Fraction(float(v)))
@@ -115,7 +115,7 @@ def correspondence(ctx):
     # the stage rendition of the same household: its aggregates must follow the same executable model (terminal value = the first stage's continuation value,
     # initial distribution = the first stage's beginning-of-stage distribution)
     sblk = m.toy_stage
-    n_stage = 8 if ctx['tier'] == 'quick' else 80
+    n_stage = 6 if ctx['tier'] == 'quick' else 40
     for _ in range(n_stage):
         g = gen_toy(rng)
         calib = dict(a_grid=np.array(g['a_grid']), e_grid=np.array(g['e_grid']), Pi_ss=np.array(g['Pi']), shift=0.0, r=g['r'], w=g['w'], kappa=g['kappa'])
